@@ -69,6 +69,44 @@ def dag_cases(policies):
             else:
                 pol["lookahead"] = 30
             case["shape"] = "replanned_parent"
+        elif cand and draw(st.integers(0, 3)) == 0:
+            # a parent whose earlier plan (with its faster strategy) was withdrawn again (Task.unschedule), decided together
+            # with its children: nothing of the withdrawn plan may shorten the time the children wait
+            g = cand[0]
+            gone = lambda rows: [r for r in rows if (r[0] if isinstance(r, list) else r["graph"]) != g["name"]]  # noqa: E731
+            for key in ("completed", "running", "scheduled", "retracted"):
+                case[key] = gone(case.get(key, []))
+            strategies = case["profiles"][g["jobs"][0]["profile"]]["strategies"]
+            if len(strategies) < 2:
+                strategies.append(dict(strategies[0]))
+            strategies[1]["runtime"] = strategies[0]["runtime"] + draw(st.integers(2, 4))
+            case["retracted"].append({"graph": g["name"], "job": g["jobs"][0]["name"], "strategy": 0})
+            g["release_time"] = 0
+            if "release_taskgraphs" in pol and draw(st.booleans()):
+                pol["release_taskgraphs"] = True
+            else:
+                pol["lookahead"] = 30
+            case["shape"] = "withdrawn_parent"
+        elif cand and draw(st.integers(0, 3)) == 0:
+            # a chain planned ahead by an earlier invocation (parent and first child both SCHEDULED) that a non-retracting
+            # planner meets again together with a newcomer
+            g = cand[0]
+            gone = lambda rows: [r for r in rows if (r[0] if isinstance(r, list) else r["graph"]) != g["name"]]  # noqa: E731
+            for key in ("completed", "running", "scheduled", "retracted"):
+                case[key] = gone(case.get(key, []))
+            root = g["jobs"][0]
+            child = g["jobs"][root["children"][0]]
+            slow = max(s_["runtime"] for s_ in case["profiles"][root["profile"]]["strategies"])
+            at = draw(st.integers(1, 4))
+            pw = {"pool": draw(st.integers(0, 2)), "worker": draw(st.integers(0, 2))}
+            case["scheduled"].append(dict(pw, graph=g["name"], job=root["name"], strategy=draw(st.integers(0, 1)), at=at))
+            case["scheduled"].append(dict(pool=draw(st.integers(0, 2)), worker=draw(st.integers(0, 2)), graph=g["name"], job=child["name"],
+                                          strategy=draw(st.integers(0, 1)), at=at + slow + 1 + draw(st.integers(0, 3))))
+            g["release_time"] = 0
+            case["graphs"].append({"name": "GX", "jobs": [{"name": "GX_j0", "profile": 0, "children": [], "conditional": False, "terminal": False, "probability": 1.0}],
+                                   "release_time": case["now"], "deadline": case["now"] + draw(st.integers(8, 50))})
+            pol["retract_schedules"] = False
+            case["shape"] = "planned_chain_meets_newcomer"
         return case
 
     return s()
